@@ -1,8 +1,10 @@
-//go:build verif
+//go:build verif && verif_c02wb
 
 /*
  * Verification hook (property C02): drive a real dagChannel from an external harness.
- * Add-only; compiled only with -tags verif.
+ * Add-only; compiled only with -tags verif,verif_c02wb: the white-box group of C02, which only the C02
+ * harness asks for, so a rename in dag.go that this file does not follow cannot stop the other
+ * properties' harnesses (built with -tags verif) from compiling.
  */
 
 package compose
